@@ -360,6 +360,15 @@ func c06Run(in0 interface{}) (res Result) {
 			class += "governed"
 		}
 		sig := "lookup:plain"
+		for i := range in.Cfgs {
+			for j := range in.Cfgs {
+				a, b := in.Cfgs[i], in.Cfgs[j]
+				alias := func(h string) bool { return h == "" || h == "0.0.0.0" || h == "::" }
+				if i < j && !a.Nil && !b.Nil && alias(a.Host) && alias(b.Host) && (a.Host != "" || b.Host != "") {
+					sig = "lookup:unspecified-address-alias"
+				}
+			}
+		}
 		if anyNil {
 			sig = "lookup:nil-config"
 		}
@@ -529,12 +538,13 @@ func c06ServeSig(in *c06In, hosts []string) string {
 		}
 		return p
 	}
-	// two different spellings of the unspecified address / catch-all with different client policies
+	// two catch-all sites, at least one spelled 0.0.0.0 or ::, with different client policies (the
+	// compatibility assert looks these up under the unmapped name and never finds the other)
 	for i := range in.Sites {
 		for j := range in.Sites {
 			ki := hosts[i] == "" || hosts[i] == "0.0.0.0" || hosts[i] == "::"
 			kj := hosts[j] == "" || hosts[j] == "0.0.0.0" || hosts[j] == "::"
-			if i < j && ki && kj && hosts[i] != hosts[j] && policy(in.Sites[i]) != policy(in.Sites[j]) {
+			if i < j && ki && kj && (hosts[i] != "" || hosts[j] != "") && policy(in.Sites[i]) != policy(in.Sites[j]) {
 				return "serve:unspecified-address-alias"
 			}
 		}
